@@ -208,6 +208,36 @@ impl ColumnBuffer {
     }
 }
 
+/// The row indices of a sparse column are strictly increasing, below the table length, and there is
+/// one value per index. Everything downstream (padding with NULLs, replay) relies on that.
+fn check_sparse_indices(
+    table: &str,
+    column: &str,
+    indices: impl Iterator<Item = u64>,
+    values: u32,
+    len: u64,
+) -> capnp::Result<()> {
+    let mut count = 0u32;
+    let mut previous = None;
+    for index in indices {
+        if index >= len || previous.map_or(false, |p| index <= p) {
+            return Err(capnp::Error::failed(format!(
+                "sparse column {}.{}: row index {} out of order or beyond the table length {}",
+                table, column, index, len
+            )));
+        }
+        previous = Some(index);
+        count += 1;
+    }
+    if count != values {
+        return Err(capnp::Error::failed(format!(
+            "sparse column {}.{}: {} indices but {} values",
+            table, column, count, values
+        )));
+    }
+    Ok(())
+}
+
 impl EventBuffer {
     pub fn serialize(&self) -> Vec<u8> {
         let mut builder = capnp::message::Builder::new_default();
@@ -314,6 +344,7 @@ impl EventBuffer {
                     Which::SparseF64(sparse) => {
                         let indices = sparse.get_indices()?;
                         let values = sparse.get_values()?;
+                        check_sparse_indices(&name, &colname, indices.iter(), values.len(), len)?;
                         ColumnData::Sparse(indices.iter().zip(values.iter()).collect())
                     }
                     Which::I64(i64s) => ColumnData::I64(i64s?.iter().collect()),
@@ -328,6 +359,7 @@ impl EventBuffer {
                     Which::SparseI64(sparse) => {
                         let indices = sparse.get_indices()?;
                         let values = sparse.get_values()?;
+                        check_sparse_indices(&name, &colname, indices.iter(), values.len(), len)?;
                         ColumnData::SparseI64(indices.iter().zip(values.iter()).collect())
                     }
                     Which::Mixed(mixed) => {
@@ -347,6 +379,16 @@ impl EventBuffer {
                         ColumnData::Mixed(values)
                     }
                 };
+                // A column may end before the table does (the remaining rows are NULL), never after it
+                if data.len() as u64 > len {
+                    return Err(capnp::Error::failed(format!(
+                        "column {}.{} has {} values but the table has {} rows",
+                        name,
+                        colname,
+                        data.len(),
+                        len
+                    )));
+                }
                 columns.insert(colname, ColumnBuffer { data });
             }
             tables.insert(name, TableBuffer { len, columns });
